@@ -51,11 +51,13 @@ FLOORS = {
     "quick": {"requests": 1500, "contract_config_meets_request": 900, "contract_config_inside_declared_ranges": 900,
               "contract_instance_realises_config": 900, "configs_accepted": 900, "refusals_crosschecked": 200,
               "refusals_confirmed_no_solution": 150, "n_helpers_with_config": 18, "n_helpers_with_refusal": 10, "n_boundary_kinds": 12,
-              "test_clock_tests_run": 15, "test_clock_contract_evaluations": 20},
+              "test_clock_tests_run": 15, "test_clock_contract_evaluations": 20, "osc_requests": 150, "osc_outputs_checked": 120,
+              "osc_refusals": 10},
     "thorough": {"requests": 18000, "contract_config_meets_request": 11000, "contract_config_inside_declared_ranges": 11000,
                  "contract_instance_realises_config": 11000, "configs_accepted": 11000, "refusals_crosschecked": 2500,
                  "refusals_confirmed_no_solution": 2000, "n_helpers_with_config": 18, "n_helpers_with_refusal": 12, "n_boundary_kinds": 14,
-                 "test_clock_tests_run": 15, "test_clock_contract_evaluations": 20},
+                 "test_clock_tests_run": 15, "test_clock_contract_evaluations": 20, "osc_requests": 2000, "osc_outputs_checked": 1600,
+                 "osc_refusals": 100},
 }
 SHARD_TIMEOUT = {"quick": 900, "thorough": 3000}
 N_SAMPLES = 8
@@ -67,6 +69,7 @@ N_CASES = {
     "USPPLL": (110, 1400), "USPMMCM": (90, 1000), "ECP5PLL": (260, 2600), "iCE40PLL": (160, 2000), "NXPLL": (70, 700),
     "CycloneIVPLL": (40, 400), "CycloneVPLL": (40, 400), "Cyclone10LPPLL": (40, 400), "Max10PLL": (40, 400),
     "GW1NPLL": (200, 2400), "GW2APLL": (120, 1400), "GW5APLL": (16, 160), "TRIONPLL": (100, 1200), "GateMatePLL": (60, 700),
+    "NXOSCA": (120, 1500), "GW1NOSC": (80, 1000),
 }
 N_SHARDS = {"quick": 48, "thorough": 128}
 
@@ -131,8 +134,124 @@ def run_case(col, case):
     if case["cls"] == "test_clock":
         return run_test_clock(col, case)
     rng = rng_for(case["seed"])
+    if case["cls"] in ("NXOSCA", "GW1NOSC"):
+        return run_osc(col, case, rng)
     req = case["request"] if "request" in case else gen_request(col, case["cls"], rng)
     return run_request(col, case, req)
+
+
+# ------------------------------------------------------------------------------------------------
+# oscillator helpers of the anchored files (a base frequency and one divider per output): same questions as for the PLLs
+# ------------------------------------------------------------------------------------------------
+def _inst_params(mod, of):
+    from migen.fhdl.specials import Instance
+    for sp in mod._fragment.specials:
+        if isinstance(sp, Instance) and sp.of == of:
+            return {("p_" if isinstance(i, Instance.Parameter) else "x_") + i.name: (i.value if isinstance(i, Instance.Parameter) else i.expr)
+                    for i in sp.items}
+    return None
+
+
+def run_osc(col, case, rng):
+    from migen import ClockDomain
+    name = case["cls"]
+    req = case.get("request")
+    if name == "NXOSCA":
+        from litex.soc.cores.clock.lattice_nx import NXOSCA
+        base, lo, hi = NXOSCA.clk_hf_freq, *NXOSCA.clk_hf_div_range
+        divs = [d + 1 for d in range(lo, hi)]                       # HF_CLK_DIV = d divides by d + 1
+        if req is None:
+            def one():
+                m = rng.choice([5e-2, 5e-2, 1e-2, 1e-3, 1e-4, 0.2])
+                mode = rng.random()
+                if mode < 0.5:
+                    d = rng.choice(divs)
+                    f = base / d * (1 + rng.choice([0, 0.5, 0.99, -0.99, 1.01, -1.01]) * m)
+                elif mode < 0.8:
+                    f = rng.choice([1.8e6, 2e6, 5e6, 10e6, 12e6, 25e6, 50e6, 75e6, 100e6, 150e6, 225e6, 450e6])
+                else:
+                    f = loguniform(rng, 1.77e6, 450e6)
+                return [min(max(f, 1.77e6), 450e6), m]
+            req = {"hf": one() if rng.random() < 0.8 else None, "hfsdc": one() if rng.random() < 0.5 else None}
+            if req["hf"] is None and req["hfsdc"] is None:
+                req["hf"] = one()
+        outs = [(k, req[k]) for k in ("hf", "hfsdc") if req.get(k)]
+        osc = NXOSCA()
+        for k, (f, m) in outs:
+            cd = ClockDomain("cd_" + k)
+            (osc.create_hf_clk if k == "hf" else osc.create_hfsdc_clk)(cd, f, margin=m)
+        param = {"hf": "p_HF_CLK_DIV", "hfsdc": "p_HF_SED_SEC_DIV"}
+
+        def build():
+            osc.finalize()
+            return _inst_params(osc, "OSCA")
+
+        def div_of(p, k):
+            v = p[param[k]]
+            return int(getattr(v, "value", v)) + 1
+    else:
+        from litex.soc.cores.clock.gowin_gw1n import GW1NOSC
+        lo, hi = GW1NOSC.osc_div_range
+        divs = list(range(lo, hi))
+        if req is None:
+            dev = rng.choice(["GW1N-4", "GW1NR-9", "GW1N-1", "GW1NR-4B", "GW2A-18C"])
+            base = 210e6 if dev in ["GW1N-4", "GW1NR-4", "GW1N-4B", "GW1NR-4B", "GW1NRF-4B", "GW1N-4C", "GW1NR-4C"] else 250e6
+            m = rng.choice([1e-2, 1e-2, 5e-2, 1e-3, 1e-4])
+            if rng.random() < 0.6:
+                f = base / rng.choice(divs) * (1 + rng.choice([0, 0.5, 0.99, -0.99, 1.01, -1.01]) * m)
+            else:
+                f = rng.choice([2e6, 2.5e6, 5e6, 10e6, 12e6, 25e6, 27e6, 50e6, 62.5e6, 105e6, 125e6])
+            req = {"device": dev, "hf": [f, m]}
+        dev = req["device"]
+        base = 210e6 if dev in ["GW1N-4", "GW1NR-4", "GW1N-4B", "GW1NR-4B", "GW1NRF-4B", "GW1N-4C", "GW1NR-4C"] else 250e6
+        outs = [("hf", req["hf"])]
+        holder = {}
+
+        def build():
+            holder["o"] = GW1NOSC(dev, req["hf"][0], margin=req["hf"][1])
+            holder["o"].finalize()
+            return _inst_params(holder["o"], "OSC")
+
+        def div_of(p, k):
+            v = p["p_FREQ_DIV"]
+            return int(getattr(v, "value", v))
+    case = dict(case, request=req)
+    col.ev("osc_requests")
+    solvable = {k: [d for d in divs if abs(base / d - f) <= f * m * (1 + 1e-12)] for k, (f, m) in outs}
+    try:
+        p = build()
+    except (ValueError, AssertionError) as e:
+        env.restore_stderr()
+        col.ev("osc_refusals")
+        if all(solvable[k] for k, _ in outs):
+            col.violation("%s/refused-but-solution-exists" % name.lower(), case, "request %s refused (%s) although dividers %s meet it" % (
+                req, e, {k: v[:3] for k, v in solvable.items()}), {"request": req, "dividers_meeting_it": {k: v[:6] for k, v in solvable.items()}})
+        col.case_done(case, True, sample={"request": req, "refused": str(e)})
+        return
+    except Exception as e:
+        env.restore_stderr()
+        col.violation("%s/crashed-%s" % (name.lower(), type(e).__name__), case, "request %s: %r" % (req, e), {"request": req})
+        col.case_done(case, True)
+        return
+    col.ev("osc_configs_returned")
+    if p is None:
+        col.violation("%s/primitive-not-instantiated" % name.lower(), case, "no instance emitted", {"request": req})
+        col.case_done(case, True)
+        return
+    for k, (f, m) in outs:
+        try:
+            d = div_of(p, k)
+        except (KeyError, ValueError, TypeError):
+            col.violation("%s/divider-parameter-missing" % name.lower(), case, "output %s: no divider parameter on the instance %s" % (
+                k, sorted(x for x in p if x.startswith("p_"))), {"request": req})
+            continue
+        col.ev("osc_outputs_checked")
+        if d not in divs:
+            col.violation("%s/divider-out-of-range" % name.lower(), case, "output %s: divider %s outside the declared range" % (k, d), {"request": req})
+        elif abs(base / d - f) > f * m * (1 + 1e-9):
+            col.violation("%s/output-outside-margin" % name.lower(), case, "output %s: requested %.6g Hz +-%g, the emitted divider %d gives %.6g Hz" % (
+                k, f, m, d, base / d), {"request": req, "divider": d, "obtained": base / d})
+    col.case_done(case, True, sample={"request": req, "instance_parameters": {k: str(v) for k, v in p.items() if k.startswith("p_")}})
 
 
 # ------------------------------------------------------------------------------------------------
